@@ -398,7 +398,49 @@ def nontrivial(seq):
 
 
 # --------------------------------------------------------------------------- C14
+RACE_CFG = """SPECIFICATION TraceSpec
+POSTCONDITION TraceAccepted
+CHECK_DEADLOCK FALSE
+"""
+
+
+def race_stage(run, vh, quick, only=None):
+    beh = only or []
+    if not only:
+        for k in range(8 if quick else 32):
+            st = ["mem", "file"][k % 2]
+            beh.append({"id": "race-%d-%s" % (k, st), "store": st, "env": {}, "base": ["", "/prefix"][(k // 2) % 2], "mailbox": "racer%d" % k,
+                        "deliveries": (400 if st == "mem" else 150) * (1 if quick else 3), "pause_us": [0, 50, 200, 500][(k + run.seed) % 4], "ui": k % 4 >= 2})
+        for b in beh:
+            if b["base"]:
+                b["env"] = {"INBUCKET_WEB_BASEPATH": b["base"]}
+    bf, tf = run.path("race.json"), run.path("race.ndjson")
+    json.dump({"seed": run.seed, "behaviours": beh}, open(bf, "w"))
+    run.harness(vh, ["restrace", bf, tf], timeout=1200)
+    res = run.validate("RestRaceTrace", RACE_CFG, tf, max_rej=len(beh) + 1, parallel=1)
+    run.cov["evaluations"] += sum(1 for _ in beh)
+    byid = {b["id"]: b for b in beh}
+    for r in res["rejections"]:
+        ev = r["rejected_event"]
+        bad = []
+        dels = {d["id"]: d["k"] for d in ev.get("dels", [])}
+        for g in ev.get("gets", []):
+            if g["st"] not in (200, 404) or (g["st"] == 200 and not (dels.get(g["id"]) == g["subj_k"] == g["body_k"] == g["hdr_k"])):
+                bad.append(g)
+        run.violation("C14 fetch while delivering (%s store, %s): of %d fetches of .../latest during %d deliveries TLC rejects the history; e.g. %s "
+                      "(id of delivery %s, subject of %s, header of %s, body of %s): not one message the store held, or not the latest at any moment of the request" % (
+                          byid.get(r["trace"], {}).get("store"), "web UI" if ev.get("ui") else "REST", len(ev.get("gets", [])), len(ev.get("dels", [])),
+                          json.dumps(bad[0] if bad else (ev.get("gets") or [None])[0]), dels.get(bad[0]["id"]) if bad else "?", bad[0]["subj_k"] if bad else "?",
+                          bad[0]["hdr_k"] if bad else "?", bad[0]["body_k"] if bad else "?"),
+                      {"behaviour": byid.get(r["trace"]), "rejection": {k: v for k, v in r.items() if k != "rejected_event"}, "bad": bad[:5], "replay_kind": "restrace"})
+
+
 def c14(run, args):
+    if args.replay and json.load(open(args.replay)).get("replay_kind") == "restrace":
+        b = json.load(open(args.replay))["behaviour"]
+        race_stage(run, run.build_harness(), True, only=[b] * 3)
+        run.cov["rule"] = "replay of one fetch-while-delivering behaviour (three runs)"
+        return
     if args.replay:
         return replay_file(run, args)
     quick = run.tier == "quick"
@@ -440,6 +482,8 @@ def c14(run, args):
     run.cov["samples"] = [merged[len(merged) // 2][0][:12], merged[-1][0], sim[0][:14]] if merged and sim else []
     run.log("behaviours: %d (tour edges %d -> %d merged, sims %d)" % (len(beh), len(tour), len(merged), len(sim)))
     replay_and_validate(run, vh, beh, "c14")
+    # (4) fetch while delivering: what /latest shows is one message the store held, the latest at some moment of the request
+    race_stage(run, vh, quick)
     run.cov["rule"] = ("TLC walks every edge (store state, request) of the Rest contract's bounded state graph once (transition tour: 2 mailboxes, <= %d deliveries, routes "
                        "list/get/source/mark-seen x 4 body classes/delete/purge of /api/v1 and message/html/source of /serve, id references = every id issued so far (live or removed), "
                        "one never issued, 'latest'); all read edges of one state are replayed in one behaviour after a shortest path to the state, every other edge in its own; plus simulated "
@@ -447,6 +491,8 @@ def c14(run, args):
                        "naming; requests spell the name canonically, with mixed case and +extension, or as a full address, escaped in two ways), on the memory and the file store, without and "
                        "with a configured base path, once through raw HTTP and once with the step(s) under test through pkg/rest/client (direct methods and the convenience methods of the "
                        "returned values); the state-building prefix always uses raw HTTP.  After every step status class, decoded response fields and the whole store must be the contract's. "
+                       "Plus fetch while delivering: one goroutine delivers numbered messages while another fetches .../latest (REST and web UI, both stores, with and without base path); "
+                       "calls stamped from one atomic counter; TLC (RestRaceTrace) requires every answer to be one message the store held and the latest at some moment of the request. "
                        "non-trivial = at least one delivery and one request; distinct = distinct abstract sequence (tour edge or simulated history)" % (2 if quick else 3, 50 if quick else 80))
     run.assumptions += ["body parts compared after line-ending normalisation (CR*LF -> LF, trailing newlines dropped); sources and sizes byte-exact via sha256 prefix + length",
                         "web UI /serve/mailbox/{name}/{id} is compared on metadata only (its text/html are transformed for display: C18); attachments are not requested",
